@@ -108,6 +108,7 @@ class Abort(Exception):
 
 
 _EXPLORED: set = set()
+_HISTORY_DONE: set = set()
 
 
 def _copy_args(a):
@@ -146,6 +147,9 @@ def call_public(ctx, I, dotted, *args, **kw):
             def again(I_):
                 return I_.call(public(ctx, I_, dotted), tuple(_copy_args(saved[0])), dict(_copy_args(saved[1])))
             explore_exits(ctx, rule, dotted.split(".")[-1], I, g0, lambda: _like(I), again, out, defloc(ctx, dotted), cases=cases)
+            if (ctx.prop, dotted) not in _HISTORY_DONE:
+                _HISTORY_DONE.add((ctx.prop, dotted))
+                _history(ctx, I, dotted, saved, out)
         return out
     except RaiseSig as r:
         node = r.exc.node
@@ -153,6 +157,158 @@ def call_public(ctx, I, dotted, *args, **kw):
                f"{dotted} raises {r.exc.typename} on generic symbolic input (raise site line {getattr(node, 'lineno', '?')})",
                defloc(ctx, dotted))
         raise Abort()
+
+
+def _rename_map(values):
+    acc = set()
+    for v in _flat_cells(values):
+        if isinstance(v, E):
+            acc |= {a for a in alg.atoms_of(v, deep=True) if a.kind in ("sym", "psym") and not (a.kind == "psym" and a.args[0] == "pi")}
+    return {a: (alg.sym if a.kind == "sym" else alg.psym)(str(a.args[0]) + "'") for a in acc}
+
+
+def _renamed(v, mp):
+    if isinstance(v, np.ndarray):
+        r = np.empty(v.shape, dtype=object)
+        for i in np.ndindex(*v.shape):
+            r[i] = _renamed(v[i], mp)
+        return r
+    if isinstance(v, (list, tuple)):
+        return type(v)(_renamed(x, mp) for x in v)
+    if isinstance(v, dict):
+        return {k: _renamed(x, mp) for k, x in v.items()}
+    if isinstance(v, E):
+        return alg.subst(v, mp) if mp else v
+    return v
+
+
+def _copy_state(v, memo):
+    if id(v) in memo:
+        return memo[id(v)]
+    if isinstance(v, dict):
+        r = {}
+        memo[id(v)] = r
+        for k, x in v.items():
+            r[k] = _copy_state(x, memo)
+        return r
+    if isinstance(v, list):
+        r = []
+        memo[id(v)] = r
+        r.extend(_copy_state(x, memo) for x in v)
+        return r
+    if isinstance(v, set):
+        return set(v)
+    if isinstance(v, np.ndarray):
+        return v.copy()
+    return v
+
+
+def _snapshot_state(program):
+    """module-level containers of the interpreted program (what persists between calls)"""
+    snap = {}
+    for name, mod in program.modules.items():
+        memo = {}
+        snap[name] = {k: _copy_state(v, memo) for k, v in mod.globals_cache.items() if isinstance(v, (dict, list, set, np.ndarray))}
+    return snap
+
+
+def _restore_state(program, snap):
+    for name, vals in snap.items():
+        mod = program.modules.get(name)
+        if mod is None:
+            continue
+        memo = {}
+        for k, v in vals.items():
+            cur = mod.globals_cache.get(k)
+            new = _copy_state(v, memo)
+            # keep the identity of the module-level object (functions may have captured it), replace its content
+            if isinstance(cur, dict) and isinstance(new, dict):
+                cur.clear()
+                cur.update(new)
+            elif isinstance(cur, list) and isinstance(new, list):
+                cur[:] = new
+            elif isinstance(cur, set) and isinstance(new, set):
+                cur.clear()
+                cur.update(new)
+            elif isinstance(cur, np.ndarray) and isinstance(new, np.ndarray) and cur.shape == new.shape:
+                cur[...] = new
+            else:
+                mod.globals_cache[k] = new
+        for k in list(mod.globals_cache):
+            if k.startswith("__memo__:") and k not in vals:
+                del mod.globals_cache[k]
+
+
+def _history(ctx, I, dotted, saved, out):
+    """Call-history independence: module-level state of the interpreted program persists between calls, exactly as in a running process.
+    After the call just made, the function is called again (i) with new argument objects holding different (renamed) symbols and (ii) with the
+    SAME argument objects whose contents were overwritten by the renamed symbols; both must return the first result with the symbols renamed.
+    A memo keyed by less than the whole input, or by object identity, fails this."""
+    mp = _rename_map(list(saved[0]) + list(saved[1].values()))
+    outc = _flat_cells(out)
+    if not mp or not outc or not all(isinstance(c, (E, int, float)) and not isinstance(c, bool) for c in outc):
+        return
+    rule = f"{ctx.prop}.history"
+    if rule not in ctx.rules_doc:
+        ctx.rule(rule, "a public function returns a function of its arguments: called again in the same process with different values (in new objects, "
+                       "and in the very same objects overwritten in place) it returns the first result with the values exchanged")
+    expected = [_renamed(lift(c), mp) for c in outc]
+    loc = defloc(ctx, dotted)
+    for variant in ("new objects", "same objects overwritten in place"):
+        a2 = _renamed(tuple(_copy_args(saved[0])), mp)
+        k2 = _renamed(dict(_copy_args(saved[1])), mp)
+        I2 = _like(I)
+        if variant.startswith("same"):
+            objs = tuple(_copy_args(saved[0]))
+            if not any(isinstance(o, np.ndarray) for o in objs):
+                continue
+            try:
+                I2.call(public(ctx, I2, dotted), objs, dict(_copy_args(saved[1])))
+            except Exception:
+                continue
+            a3 = []
+            for o, new in zip(objs, a2):
+                if isinstance(o, np.ndarray) and isinstance(new, np.ndarray) and o.shape == new.shape:
+                    o[...] = new
+                    a3.append(o)
+                else:
+                    a3.append(new)
+            a2 = tuple(a3)
+        tag = f"{dotted.split('.')[-1]}:second call, {variant}"
+        state = _snapshot_state(I.program)
+        try:
+            out2 = _flat_cells(I2.call(public(ctx, I2, dotted), a2, k2))
+            if I2.exit_ids and variant.startswith("new"):
+                # data-dependent exits met by the second call only (e.g. a look-up in a table filled by the first call): follow each of them
+                # from the state the first call left behind
+                after = _snapshot_state(I.program)
+
+                def rerun(I_, a2=a2, k2=k2):
+                    _restore_state(I.program, state)
+                    return I_.call(public(ctx, I_, dotted), tuple(_copy_args(a2)), dict(_copy_args(k2)))
+                explore_exits(ctx, rule, tag, I2, 0, lambda: _like(I), rerun, expected, loc, what="result of the second call")
+                _restore_state(I.program, after)
+        except RaiseSig as r:
+            ctx.ob(rule, tag, False, f"the second call raises {r.exc.typename}", loc)
+            continue
+        except Exception as ex:      # outside the interpreted subset on the second call only: state-dependent behaviour we cannot follow
+            ctx.ob(rule, tag, "inconclusive", f"second call not interpretable: {str(ex)[:100]}", loc)
+            continue
+        if len(out2) != len(expected):
+            ctx.ob(rule, tag, False, f"{len(out2)} output cells, first call gave {len(expected)}", loc)
+            continue
+
+        def f(out2=out2):
+            for i, (x, y) in enumerate(zip(out2, expected)):
+                if isinstance(x, Opaque):
+                    return "inconclusive", f"opaque cell {i}"
+                verdict, info = alg.decide(x, y)
+                if verdict == "differ":
+                    return False, f"cell {i} of the second call is {short(x)}, expected {short(y)} (the first result with the inputs exchanged); witness {info}"
+                if verdict != "equal":
+                    return "inconclusive", f"cell {i}: {info}"
+            return True, ""
+        ctx.check(rule, tag, f, loc)
 
 
 def _bare_sym(x):
